@@ -1,6 +1,7 @@
 import PkgModel.Specifier
 import PkgProofs.Lemmas.Dec
 import PkgProofs.Lemmas.ScanBasic
+import PkgModel.Spec.Admits
 /-!
 # `_version_split` of a rendered version, and `_pad_version` on such token lists
 
@@ -303,5 +304,103 @@ theorem versionSplit_public (v : Ver) (hr : v.release ≠ []) :
     simp only [List.append_assoc] at this
     rw [this]
     simp [sufToks, tailItems, List.append_assoc]
+
+/-! ### classification of the tokens by `str.isdigit` and `_is_not_suffix` -/
+
+theorem startsWith_append (p t : Str) : startsWith (p ++ t) p = true := by
+  induction p with
+  | nil => cases t <;> rfl
+  | cons c cs ih => simp [startsWith, ih]
+
+theorem isNotSuffix_dec (n : Nat) : isNotSuffix (dec n) = true := by
+  obtain ⟨d, ds, h, hd⟩ := dec_head n
+  have hb := digit_bounds hd
+  rw [h]
+  simp [isNotSuffix, ofString, startsWith]
+  omega
+
+theorem sufToks_class (v : Ver) : ∀ t ∈ sufToks v, isDigitStr t = false ∧ isNotSuffix t = false := by
+  intro t ht
+  simp only [sufToks, List.mem_append] at ht
+  rcases ht with (ht | ht) | ht
+  · cases hp : v.pre with
+    | none => simp [hp, preTok] at ht
+    | some q =>
+      obtain ⟨l, n⟩ := q
+      simp only [hp, preTok, List.mem_singleton] at ht; subst ht
+      cases l <;> simp [PreL.str, ofString, isDigitStr, isDigit, isNotSuffix, startsWith]
+  · cases hp : v.post with
+    | none => simp [hp, postTok] at ht
+    | some n =>
+      simp only [hp, postTok, List.mem_singleton] at ht; subst ht
+      refine ⟨by simp [ofString, isDigitStr, isDigit], ?_⟩
+      simp [isNotSuffix, startsWith_append]
+  · cases hp : v.dev with
+    | none => simp [hp, devTok] at ht
+    | some n =>
+      simp only [hp, devTok, List.mem_singleton] at ht; subst ht
+      refine ⟨by simp [ofString, isDigitStr, isDigit], ?_⟩
+      simp [isNotSuffix, startsWith_append]
+
+theorem takeWhile_none {α} (p : α → Bool) (X : List α) (h : ∀ t ∈ X, p t = false) : X.takeWhile p = [] := by
+  cases X with
+  | nil => rfl
+  | cons x xs => simp [List.takeWhile_cons, h x (by simp)]
+
+theorem takeWhile_digits (l : List Nat) (X : List Str) (hX : ∀ t ∈ X, isDigitStr t = false) :
+    (l.map dec ++ X).takeWhile isDigitStr = l.map dec := by
+  rw [List.takeWhile_append_of_pos (by intro a ha; obtain ⟨n, _, rfl⟩ := List.mem_map.mp ha; exact isDigitStr_dec n),
+    takeWhile_none _ X hX, List.append_nil]
+
+theorem takeWhile_notSuffix (l : List Nat) (X : List Str) (hX : ∀ t ∈ X, isNotSuffix t = false) :
+    (l.map dec ++ X).takeWhile isNotSuffix = l.map dec := by
+  rw [List.takeWhile_append_of_pos (by intro a ha; obtain ⟨n, _, rfl⟩ := List.mem_map.mp ha; exact isNotSuffix_dec n),
+    takeWhile_none _ X hX, List.append_nil]
+
+/-! ### `_pad_version` followed by the slice and the list comparison of `_compare_equal` -/
+
+theorem dec_beq (a b : Nat) : (dec a == dec b) = (a == b) := by
+  by_cases h : a = b
+  · subst h; simp
+  · have h1 : dec a ≠ dec b := fun e => h (dec_inj e)
+    have h2 : (a == b) = false := by simpa using h
+    rw [h2]; simpa using h1
+
+theorem nat_beq_comm (a b : Nat) : (a == b) = (b == a) := by
+  by_cases h : a = b
+  · subst h; rfl
+  · have h1 : (a == b) = false := by simpa using h
+    have h2 : (b == a) = false := by simpa using fun e : b = a => h e.symm
+    rw [h1, h2]
+
+theorem take_pad (r l : List Nat) (X : List Str) :
+    ((l.map dec ++ List.replicate (r.length - l.length) [48] ++ X).take r.length == r.map dec) =
+      Pep440.zeroPadPrefix r l := by
+  induction r generalizing l with
+  | nil => simp [Pep440.zeroPadPrefix]
+  | cons a as ih =>
+    cases l with
+    | nil =>
+      have := ih []
+      simp only [List.map_nil, List.length_nil, Nat.sub_zero, List.nil_append] at this
+      simp only [List.map_nil, List.length_nil, Nat.sub_zero, List.nil_append, List.length_cons,
+        List.replicate_succ, List.cons_append, List.take_succ_cons, List.map_cons, List.cons_beq_cons, this,
+        Pep440.zeroPadPrefix]
+      rw [← dec_zero, dec_beq, nat_beq_comm]
+    | cons b bs =>
+      have := ih bs
+      simp only [List.map_cons, List.length_cons, Nat.add_sub_add_right, List.cons_append, List.take_succ_cons,
+        List.cons_beq_cons, this, Pep440.zeroPadPrefix, dec_beq]
+      rw [nat_beq_comm]
+
+/-- the whole `.*` comparison on token lists: candidate tokens `l` + suffix tokens vs. bare spec tokens `r` -/
+theorem pad_take (l r : List Nat) (X : List Str) (hX : ∀ t ∈ X, isDigitStr t = false) :
+    (((padVersion (l.map dec ++ X) (r.map dec)).1.take (r.map dec).length) == r.map dec) =
+      Pep440.zeroPadPrefix r l := by
+  have h1 := takeWhile_digits l X hX
+  have h2 : (r.map dec).takeWhile isDigitStr = r.map dec := by
+    have := takeWhile_digits r [] (by simp); simpa using this
+  simp only [padVersion, h1, h2, List.length_map, List.drop_left' (List.length_map (as := l) dec)]
+  exact take_pad r l X
 
 end SS
